@@ -267,6 +267,27 @@ func libFrameFromDump(dump string) string {
 	return ""
 }
 
+// blockedLibFrame returns the innermost library function of a goroutine that
+// is blocked on a sync primitive, if any.
+func blockedLibFrame(dump string) string {
+	cur, blocked := "", false
+	for _, l := range strings.Split(dump, "\n") {
+		t := strings.TrimSpace(l)
+		if strings.HasPrefix(t, "goroutine ") && strings.HasSuffix(t, ":") {
+			cur = t
+			blocked = strings.Contains(cur, "sync.") || strings.Contains(cur, "semacquire")
+			continue
+		}
+		if blocked && strings.HasPrefix(t, libPrefix) {
+			if k := strings.LastIndexByte(t, '('); k > 0 {
+				t = t[:k]
+			}
+			return normFunc(t)
+		}
+	}
+	return ""
+}
+
 func fatalClass(dump string) string {
 	for _, l := range strings.Split(dump, "\n") {
 		if strings.HasPrefix(l, "fatal error: ") {
@@ -315,6 +336,7 @@ func (c *child) exec(plan *Plan) *Result {
 	marks0 := c.stderr.progress()
 	begun := false
 	t0 := time.Now()
+	lastCPU, lastMarks, lastMove := cpu0, marks0, time.Now()
 	if _, err := c.in.Write(msg); err != nil {
 		c.kill()
 		return &Result{Idx: plan.Idx, Verdict: "infra", Detail: "worker not accepting plans: " + err.Error() + "\n" + tail(c.stderr.String(), 2000)}
@@ -380,6 +402,23 @@ func (c *child) exec(plan *Plan) *Result {
 					return &Result{Idx: plan.Idx, Verdict: "infra", Detail: fmt.Sprintf("CPU budget exceeded outside the library (cpu %v since the last journal line, %d journal lines):\n%s\n[…]\n%s", cpu-cpu0, marks0, head(dump, 5000), tail(dump, 1500))}
 				}
 				return &Result{Idx: plan.Idx, Verdict: "violation", Class: "hang", Site: classifyDeath(c.prop, plan, dump, site), Detail: fmt.Sprintf("no result after %v of CPU time\n%s", cpu-cpu0, head(dump, 3000)), Evals: 1, Narrow: narrowByJournal(c.prop, plan, dump), NarrowedCase: journalCase(dump)}
+			}
+			// Blocked, not spinning: no CPU and no journal progress for a minute
+			// while a plan is in flight. If the dump shows a goroutine blocked on a
+			// lock inside the library this is a deadlock in the code under test.
+			if ok && begun {
+				if cpu-lastCPU > 20*time.Millisecond || c.stderr.progress() != lastMarks {
+					lastCPU, lastMarks, lastMove = cpu, c.stderr.progress(), time.Now()
+				} else if time.Since(lastMove) > 60*time.Second {
+					c.cmd.Process.Signal(syscall.SIGQUIT)
+					time.Sleep(1500 * time.Millisecond)
+					dump := c.stderr.since(plan.Idx)
+					c.kill()
+					if site := blockedLibFrame(dump); site != "" {
+						return &Result{Idx: plan.Idx, Verdict: "violation", Class: "deadlock", Site: site, Detail: "the worker made no progress for 60 s without using CPU; a goroutine is blocked on a lock inside the library:\n" + head(dump, 3000), Evals: 1}
+					}
+					return &Result{Idx: plan.Idx, Verdict: "infra", Detail: "worker blocked (no CPU, no progress) outside the library:\n" + head(dump, 3000)}
+				}
 			}
 			if time.Since(t0) > wallBudget {
 				c.cmd.Process.Signal(syscall.SIGQUIT)
@@ -555,6 +594,7 @@ func ctlMain(propID, tier string) int {
 		samples              []any
 		viol                 map[string]*violationRec
 		violCount            int
+		knownCount           int
 		infra                []string
 		capped               bool
 		knownHits            Counter
@@ -569,6 +609,14 @@ func ctlMain(propID, tier string) int {
 				mu.Lock()
 				agg.capped = true
 				mu.Unlock()
+				return
+			}
+			// a tree on which a property fails wholesale: two dozen failing
+			// plans say what two thousand would (each hang costs a CPU budget)
+			mu.Lock()
+			enough := agg.violCount-agg.knownCount >= 24
+			mu.Unlock()
+			if enough {
 				return
 			}
 			idxCh <- i
@@ -633,6 +681,9 @@ func ctlMain(propID, tier string) int {
 				switch res.Verdict {
 				case "violation":
 					agg.violCount++
+					if matchKnown(known, propID, res.key()) != nil {
+						agg.knownCount++
+					}
 					k := res.key()
 					if _, seen := agg.viol[k]; !seen && len(agg.viol) < 12 {
 						var hist []*Plan
